@@ -248,6 +248,20 @@ def check(case, ctx):
                         ctx.evals += 1
                         if st3 != 'ok' or sp[0] not in idx:
                             ctx.fail('not-found-at-offset', sp[0], idx, peptide=outs['str'][i], text=s, span=list(sp))
+                # the peptides again through span_to_sequence on the protein TEXT, one span after the other (each call
+                # sees the whole protein), and the digest of the text afterwards is the digest from before
+                if mc == 0 and not semi and rule in RULES[:2] and outs['str'] is not None:
+                    for i, sp in enumerate(spans):
+                        if c11.cuts_inside(P, sp[0], sp[1]):
+                            continue
+                        st7, x7 = lib.call(p.span_to_sequence, s, sp)
+                        ctx.evals += 1
+                        if st7 != 'ok' or x7 != outs['str'][i]:
+                            ctx.fail('span_to_sequence-differs', outs['str'][i], x7, span=list(sp), text=s, rule=rule)
+                            break
+                    st8, again = lib.call(lambda: list(p.digest(s, rule, return_type='str', **kw)))
+                    if st8 != 'ok' or again != outs['str']:
+                        ctx.fail('digest-after-span_to_sequence', outs['str'], again, text=s, rule=rule)
                 # mass conservation of the zero-missed-cleavage peptides
                 if mc == 0 and not semi and position_bound and st == 'ok' and outs['str'] is not None and \
                         not any(c11.cuts_inside(P, a, b) for a, b, _ in spans) and spans:
